@@ -1,6 +1,7 @@
 package engb
 
 import (
+	"encoding/json"
 	"fmt"
 	"os"
 	"path/filepath"
@@ -104,6 +105,9 @@ type crashScenario struct {
 	gitDir string   // whose local storage is judged
 	args   []string // git arguments
 	bad    bool     // lfs/bad is a legal place for leftovers
+	// mayFail: the uninterrupted command may legitimately exit non-zero
+	// (a scripted agent delivers corrupt objects)
+	mayFail bool
 }
 
 func runC09(c *Ctx) {
@@ -117,7 +121,10 @@ func runC09(c *Ctx) {
 	h.Init()
 	w.MustGit(u1, "remote", "add", "origin", remote)
 	w.ConfigureClone(u1, map[string]string{"lfs.concurrenttransfers": "1"})
-	kind := []string{"add", "add-oneshot", "fetch", "pull", "checkout", "fsck", "prune", "migrate"}[t.Choose(8, "crash-scenario")]
+	kind := []string{"add", "add-oneshot", "fetch", "pull", "checkout", "fsck", "prune", "migrate", "reference", "fetch-custom", "alternates"}[t.Choose(11, "crash-scenario")]
+	if k := os.Getenv("VERIF_C09_KIND"); k != "" {
+		kind = k // debugging aid: force one scenario kind
+	}
 	var sc crashScenario
 	sc.kind = kind
 	bigContent := func() []byte {
@@ -143,6 +150,73 @@ func runC09(c *Ctx) {
 			os.WriteFile(gc, []byte(strings.Replace(string(b), "\tprocess = git-lfs filter-process\n", "", 1)), 0644)
 		}
 		sc.dir, sc.gitDir, sc.args = u1, filepath.Join(u1, ".git"), []string{"add", "-A"}
+	case "reference", "fetch-custom", "alternates":
+		n := 1 + t.Choose(3, "n-files")
+		for i := 0; i < n; i++ {
+			h.WriteFile(fmt.Sprintf("f%d.bin", i), bigContent())
+		}
+		h.commit("files")
+		if _, code := w.Git(u1, "push", "-q", "origin", "--all"); code != 0 {
+			panic(sim.HarnessError{Msg: "push failed: " + w.lastOutput()})
+		}
+		u2 := filepath.Join(w.Root, "u2")
+		cloneArgs := []string{"clone", "-q", "-c", "lfs.url=" + w.LFSURL(), "-c", "lfs.concurrenttransfers=1", "-c", "lfs.transfer.maxretries=1", "-c", "lfs.transfer.maxretrydelay=0"}
+		var env []string
+		if kind == "reference" {
+			// a file:// remote on ANOTHER file system: the standalone file
+			// transfer agent cannot hard-link and copies objects from the
+			// remote's store into local storage
+			refRoot, err := os.MkdirTemp(os.TempDir(), "verif-fileremote-")
+			if err != nil {
+				panic(sim.HarnessError{Msg: err.Error()})
+			}
+			defer os.RemoveAll(refRoot)
+			fremote := filepath.Join(refRoot, "remote.git")
+			w.MustGit(w.Root, "init", "-q", "--bare", fremote)
+			w.MustGit(u1, "config", "--unset", "lfs.url")
+			w.MustGit(u1, "remote", "add", "fileremote", "file://"+fremote)
+			if _, code := w.Git(u1, "push", "-q", "fileremote", "--all"); code != 0 {
+				panic(sim.HarnessError{Msg: "push to file remote failed: " + w.lastOutput()})
+			}
+			remote = "file://" + fremote
+			cloneArgs = []string{"clone", "-q", "-c", "lfs.concurrenttransfers=1", "-c", "lfs.transfer.maxretries=1", "-c", "lfs.transfer.maxretrydelay=0"}
+		} else if kind == "alternates" {
+			// git clone --reference to a repository on ANOTHER file system:
+			// objects are copied (hard links fail) out of the reference's
+			// LFS store into local storage by fetch
+			refRoot, err := os.MkdirTemp(os.TempDir(), "verif-ref-")
+			if err != nil {
+				panic(sim.HarnessError{Msg: err.Error()})
+			}
+			defer os.RemoveAll(refRoot)
+			ref := filepath.Join(refRoot, "ref")
+			copyTreeFull(u1, ref)
+			w.Srv.Store = map[string][]byte{} // the server cannot help
+			cloneArgs = append(cloneArgs, "--no-checkout", "--reference", ref)
+		} else {
+			src := filepath.Join(w.Root, "agent-src")
+			tmp := filepath.Join(w.Root, "agent-tmp")
+			os.MkdirAll(src, 0755)
+			os.MkdirAll(tmp, 0755)
+			behave := map[string]string{}
+			for oid, data := range h.Contents {
+				os.WriteFile(filepath.Join(src, oid), data, 0644)
+				behave[oid] = []string{"ok", "ok", "bitflip", "truncated"}[t.Choose(4, "agent-behaviour")]
+			}
+			script, _ := json.Marshal(map[string]interface{}{"source": src, "tmp": tmp, "behave": behave})
+			scriptFile := filepath.Join(w.Root, "agent.json")
+			os.WriteFile(scriptFile, script, 0644)
+			w.ExtraEnv = append(w.ExtraEnv, "VERIF_AGENT_SCRIPT="+scriptFile)
+			cloneArgs = append(cloneArgs, "-c", "lfs.customtransfer.sim.path="+AgentBinary, "-c", "lfs.customtransfer.sim.args=__lfs_agent", "-c", "lfs.customtransfer.sim.concurrent=false", "-c", "lfs.standalonetransferagent=sim")
+			sc.mayFail = true
+		}
+		cloneArgs = append(cloneArgs, remote, u2)
+		if _, code := w.GitEnv(w.Root, append(env, "GIT_LFS_SKIP_SMUDGE=1"), cloneArgs...); code != 0 {
+			panic(sim.HarnessError{Msg: "clone failed: " + w.lastOutput()})
+		}
+		sc.dir, sc.gitDir = u2, filepath.Join(u2, ".git")
+		sc.args = []string{"lfs", "fetch", "origin"}
+
 	case "fetch", "pull", "checkout":
 		n := 1 + t.Choose(4, "n-files")
 		for i := 0; i < n; i++ {
@@ -254,7 +328,7 @@ func runC09(c *Ctx) {
 			return
 		}
 	}
-	if exitU != 0 && !(kind == "fsck" && exitU == 1) {
+	if exitU != 0 && !(kind == "fsck" && exitU == 1) && !sc.mayFail {
 		panic(sim.HarnessError{Msg: fmt.Sprintf("uninterrupted %v exited %d: %s", sc.args, exitU, firstLine(outU))})
 	}
 	lb, _ := os.ReadFile(logFile)
@@ -314,7 +388,7 @@ func runC09(c *Ctx) {
 				if old, had := pre[rel]; had && old != name {
 					continue // damaged before the command started (fsck scenario input)
 				}
-				if len(name) == 64 && name != hsh {
+				if name != hsh {
 					c.Violation("bad-object-after-kill", "%s %v killed at %s: %s in local storage hashes to %s", kind, sc.args, pt, name[:12], hsh[:12])
 				}
 			case "tmp", "incomplete", "cache", "logs":
